@@ -1,6 +1,6 @@
 """Property -> clauses -> rule instances.  Each check_Cxx fills a Report; it never prints."""
 from .model import AnalysisError
-from .rules import twin, effect, work, feedback, models, misc, state, fresh, pda_rules, build, dispatch, io as iorules, closed, ka_rules, cyk
+from .rules import twin, effect, work, feedback, models, misc, state, fresh, pda_rules, build, dispatch, io as iorules, closed, ka_rules, cyk, bound
 
 ALG = ['dfa_algorithms', 'nfa_algorithms', 'pda_algorithms', 'tm_algorithms', 'cfg_algorithms', 'regexp_algorithms']
 
@@ -66,6 +66,33 @@ def check_C01(ctx, rep):
     _closed(ctx, rep, ['nfa_algorithms.nfa_accepts_word'], 2)
     state.check_hidden_state(ctx, rep, modules=['nfa_algorithms', 'dfa_algorithms'])
     build.check_invariants(ctx, rep)
+
+
+ENUMERATORS = ['dfa_algorithms.dfa_words_up_to_n', 'nfa_algorithms.nfa_words_up_to_n', 'pda_algorithms.pda_words_up_to_n',
+               'tm_algorithms.tm_words_up_to_n', 'cfg_algorithms.cfg_words_up_to_n', 'language_algorithms.words_up_to_n']
+
+
+def check_C02(ctx, rep):
+    rep.clauses_decided += ['no enumerated word is longer than n and every level 0..n can be contributed, for n = 0..4 including n = 0 and n = 1 (R-BOUND, abstract interpretation over word lengths)',
+                            'regular-expression enumerator: induction step per constructor and well-founded star recursion (R-BOUND.regexp)',
+                            'the generic generator sends each kind to its own enumerator; sibling dispatch tables agree (R-DISPATCH b)',
+                            'TM budget and PDA limit are the same on the enumeration and acceptance side (R-TM.budget, R-STATE a)',
+                            'closedness inside the NFA/PDA enumerators (R-CLOSED); CNF typestate in the grammar enumerator; enumerators do not touch their operands (R-EFFECT)']
+    rep.not_decided += ['"nothing missing, nothing extra" relative to the acceptance tests']
+    P = ctx.prog.func
+    for sp in ENUMERATORS:
+        bound.check_enumerator(ctx, rep, P(sp))
+    bound.check_regexp_enumerator(ctx, rep, P('regexp_algorithms.regexp_words_up_to_n'))
+    if dispatch.check_kind_dispatch(ctx, rep, P('language_generator.generate_language'), '_words_up_to_n') < 6:
+        rep.note('generate_language: fewer than six kinds recognised')
+    dispatch.check_kind_dispatch(ctx, rep, P('notebook.check_automaton_accepts_rejects.accepts'), '_accepts_word')
+    dispatch.check_ext_tables(ctx, rep, [P('notebook.language_parser'), P('make_notebook.parse_language_file')])
+    misc.check_tm_budget(ctx, rep, [P('tm_algorithms.tm_accepts_word'), P('tm_algorithms.tm_simulate_word'), P('tm_algorithms.tm_words_up_to_n')], P('tm_algorithms.tm_words_up_to_n'))
+    state.check_config_reads(ctx, rep)
+    _closed(ctx, rep, ['nfa_algorithms.nfa_words_up_to_n', 'pda_algorithms.pda_words_up_to_n'], 3)
+    cyk.check_cnf_use(ctx, rep, P('cfg_algorithms.cfg_words_up_to_n'))
+    state.check_hidden_state(ctx, rep, modules=['dfa_algorithms', 'nfa_algorithms', 'pda_algorithms', 'tm_algorithms', 'cfg_algorithms', 'regexp_algorithms', 'language_algorithms', 'language_generator'])
+    _effect_on(ctx, rep, ENUMERATORS + ['regexp_algorithms.regexp_words_up_to_n', 'language_generator.generate_language', 'language_algorithms.words_of_length_n'], shared=False)
 
 
 def check_C03(ctx, rep):
@@ -495,6 +522,6 @@ def check_C20(ctx, rep):
 
 
 REGISTRY = {
-    'C01': check_C01, 'C03': check_C03, 'C04': check_C04, 'C05': check_C05, 'C06': check_C06, 'C07': check_C07, 'C08': check_C08, 'C09': check_C09, 'C10': check_C10,
+    'C01': check_C01, 'C02': check_C02, 'C03': check_C03, 'C04': check_C04, 'C05': check_C05, 'C06': check_C06, 'C07': check_C07, 'C08': check_C08, 'C09': check_C09, 'C10': check_C10,
     'C11': check_C11, 'C12': check_C12, 'C13': check_C13, 'C16': check_C16, 'C17': check_C17, 'C14': check_C14, 'C15': check_C15, 'C18': check_C18, 'C19': check_C19, 'C20': check_C20,
 }
